@@ -62,7 +62,7 @@ const char *__lsan_default_options(void) { return "print_suppressions=0"; }
                    2 as 1, but the server's ticket key was replaced in between: resumption declined, full handshake,
                      NewSessionTicket for a session id that already holds a ticket
                    3 connection 3: resumption with the renewed ticket of conn 2 */
-typedef struct { const char *name; int dtls, cmin, smin, suite, cauth, key, pmtu, ticket, conn; } wcfg_t;
+typedef struct { const char *name; int dtls, cmin, smin, suite, cauth, key, pmtu, ticket, conn, hrr; } wcfg_t;
 static const wcfg_t CFGS[] = {
     { "t11",    0, 2, 2, 0,      0, 0, 0 },
     { "t12",    0, 3, 3, 0,      0, 0, 0 },
@@ -87,6 +87,8 @@ static const wcfg_t CFGS[] = {
     { "t13tk",    0, 4, 4, 0, 0, 0, 0, 1, 0 },   /* TLS 1.3 NewSessionTicket */
     { "t13tk2",   0, 4, 4, 0, 0, 0, 0, 1, 1 },   /* TLS 1.3 PSK resumption */
     { "d12rid",   1, 3, 3, 0xc02f, 0, 0, 0, 0, 1 },  /* DTLS resumption by session id */
+    /* hrr: the server supports only a group the client listed but sent no key share for: HelloRetryRequest + second ClientHello */
+    { "t13hrr",   0, 4, 4, 0, 0, 0, 0, 0, 0, 1 },
     { NULL }
 };
 static const wcfg_t *find_cfg(const char *n) { for (const wcfg_t *c = CFGS; c->name; c++) if (!strcmp(c->name, n)) return c; return NULL; }
@@ -140,7 +142,15 @@ static int mk_pair(const wcfg_t *c)
     s.ncver = 1; s.cver[0] = c->cmin; s.nsver = 1; s.sver[0] = c->smin;
     if (c->suite) { s.nsuites = 1; s.suites[0] = (psCipher16_t) c->suite; }
     s.cauth = c->cauth; s.scb = c->cauth ? 1 : 0; s.key = c->key; s.ticket = c->ticket;
-    if ((rc = sess_new(&s)) < 0 || !c->conn) return rc;
+    if ((rc = sess_new(&s)) < 0) return rc;
+    if (c->hrr) {
+        uint16_t want = 0; psSize_t nks = g_c.ssl->tls13NumClientHelloKeyShares ? g_c.ssl->tls13NumClientHelloKeyShares : 1;
+        for (psSize_t i = nks; i < g_c.ssl->tls13SupportedGroupsLen && !want; i++) want = g_c.ssl->tls13SupportedGroups[i];
+        if (!want) return -30;
+        memset(g_s.ssl->tls13SupportedGroups, 0, sizeof g_s.ssl->tls13SupportedGroups);
+        g_s.ssl->tls13SupportedGroups[0] = want; g_s.ssl->tls13SupportedGroupsLen = 1;
+    }
+    if (!c->conn) return 0;
     if ((rc = finish_conn()) < 0) return rc;
     if (c->conn >= 2) {     /* the server rotates its ticket key: tickets sealed under the old one can no longer be opened */
         static unsigned char tn[16] = "verif-ticketkey"; static const unsigned char tn2[16] = "verif-ticketke2"; unsigned char sk[32], hk[32];
